@@ -43,10 +43,22 @@ WALL_CAP = 10
 MODEL_MAX = 65536        # longer inputs are not sent to the Lean driver (their 64 KB prefix is, as an input of its own)
 HEX_MAX = 65536
 
-# findings found by this check in the unchanged repository (see notes/C20.md); classification is by exception type AND raising frame
-FINDINGS = [
-    ('FC20b', 'error', 'FileIndexer.py', '__init__'),
-    ('FC20c', 'OverflowError', 'cRepCode.pyx', None),
+# Open findings of this property: (id, exception type, file of the raising frame, function or None).  None at present:
+# FC20a/b/c (see notes/C20.md) were repaired in /repo; their inputs are in CORPUS below and any recurrence is a VIOLATION.
+FINDINGS = []
+
+# Permanent regression corpus, run first on every run: inputs on which binary_file_type once raised.
+_DAT_HDR = b'UTIM Unix Time sec\nDATE Date ddmmyy\nTIME Time hhmmss\nWAC Wits Activity Code unitless\nUTIM DATE TIME WAC\n'
+CORPUS = [
+    ('FC20b struct.error: physical record with one byte of logical data', bytes.fromhex('0005000080')),
+    ('FC20b struct.error (as first found)', bytes.fromhex('00052000e800')),
+    ('FC20c OverflowError: table component block, rep code 70, negative value',
+     bytes.fromhex('001600002200494604005459504520202020ffffffff')),
+    ('FC20a OverflowError: DAT day too large for a C int', _DAT_HDR + b'1 2147483648Dec06 11-50-17 0\n'),
+    ('FC20a OverflowError: DAT year too large for a C int', _DAT_HDR + b'1165665017 09Dec99999999999999999999 11-50-17 0\n'),
+    ('F15 OverflowError: DAT UTIM out of range', _DAT_HDR + b'99999999999999999999 09Dec06 11-50-17 0\n'),
+    ('F17 ValueError: EBCDIC-printable block with cards Cxx',
+     ''.join('Cxx' + ' ' * 77 for _ in range(40)).encode('cp500')),
 ]
 
 
@@ -359,6 +371,10 @@ def run(ctx):
     P = pools()
     repo = _repo()
     valid = []            # (bytes, expect, origin) used as seeds for truncation / mutation
+    # ---- 0. permanent regression corpus (inputs that once made binary_file_type raise)
+    for name, b in CORPUS:
+        B.run_one('corpus', b, {'corpus': name}, check_path=True)
+    B.flush()
     # ---- 1. bundled example files
     for path, code in P['examples']:
         b = open(path, 'rb').read()
